@@ -118,7 +118,11 @@ Definition emon_step (cfg : e2e_cfg) (y y' : sys) (ev : sys_event) (os : list sy
                 else []
               | _ => [] end in
   (* a Sleep call returns nil once its wake-up cycle is over *)
-  let f26s := rets ≫= (fun ir => if existsb (fun s => fst (fst s) =? fst ir) (em_sleeps m) && negb (is_ok (snd ir)) && ll
+  (* (also when it fails at once, in the step of the call itself) *)
+  let sleeps0 := em_sleeps m ++ match ev with
+                                | SCall id (ASleep ms) => if call_sensible cfg y (ASleep ms) then [(id, t0, ms)] else []
+                                | _ => [] end in
+  let f26s := rets ≫= (fun ir => if existsb (fun s => fst (fst s) =? fst ir) sleeps0 && negb (is_ok (snd ir)) && ll
                                  then [(26, 3)] else []) in
   (* every broker message for an active client with a matching subscription reaches its handler (lossless) *)
   let bmsgs := match ev with SBpub m => [m] | SBurst ms => ms | _ => [] end in
@@ -178,10 +182,7 @@ Definition emon_step (cfg : e2e_cfg) (y y' : sys) (ev : sys_event) (os : list sy
                         pb_cb := ncb_of mid topic payload; pb_acked := ack_of q mid |}]
                else []
              | _ => [] end)) in
-  let sleeps1 := List.filter (fun s => negb (existsb (fun ir => fst ir =? fst (fst s)) rets)) (em_sleeps m) in
-  let sleeps2 := match ev with
-                 | SCall id (ASleep ms) => if call_sensible cfg y (ASleep ms) then sleeps1 ++ [(id, t0, ms)] else sleeps1
-                 | _ => sleeps1 end in
+  let sleeps2 := List.filter (fun s => negb (existsb (fun ir => fst ir =? fst (fst s)) rets)) sleeps0 in
   ({| em_sleeps := sleeps2; em_bpubs := bp3; em_tx := fst tx_step |},
    f26a ++ f26s ++ f26b ++ snd tx_step ++ f16l).
 
